@@ -245,6 +245,12 @@ def stage_projects(res, pr, tier, seed):
         ([("main.jst", J + "INCLUDE .\n")], "includeisdir"),
         ([("main.jst", J + "INCLUDE ..\n")], "includeisdir"),
         ([("main.jst", J + "INCLUDE b.jst\n"), ("b.jst", "JSIGHT 0.3\n")], "jsightininclude"),
+        # a JSIGHT directive in an included file AFTER that file's own (nested) INCLUDE has been read and left
+        ([("main.jst", "INCLUDE a.jst\n"), ("a.jst", "INCLUDE b.jst\nJSIGHT 0.3\n"), ("b.jst", "# nothing here\n")], "jsightininclude"),
+        ([("main.jst", "INCLUDE a.jst\n"), ("a.jst", "INCLUDE b.jst\nJSIGHT 0.3\n"), ("b.jst", "")], "jsightininclude"),
+        ([("main.jst", J + "INCLUDE a.jst\n"), ("a.jst", "INCLUDE b.jst\nJSIGHT 0.3\n"), ("b.jst", "TYPE @t\n{}\n")], "jsightininclude"),
+        ([("main.jst", J + "INCLUDE d/a.jst\n"), ("d/a.jst", "TYPE @u\n{}\nINCLUDE b.jst\nINCLUDE b2.jst\nJSIGHT 0.3\n"), ("d/b.jst", ""), ("d/b2.jst", "INCLUDE c.jst\n"), ("d/c.jst", "")],
+         "jsightininclude"),
         ([("main.jst", J + "INCLUDE\n")], "includenoparam"),
         ([("main.jst", J + "INCLUDE /etc/passwd\n")], "includebadname"),
         ([("main.jst", J + "INCLUDE ../x.jst\n")], "includebadname"),
